@@ -247,6 +247,7 @@ pub fn random_case(rng: &mut Rng, obs: &mut Obs) {
         }
         texts.push(text);
     }
+    nevec_check(rng, obs);
     obs.add("kmp_random_cases", 1);
     if st.texts_with_overlap > 0 {
         obs.nontrivial(&(&pattern, &texts));
@@ -256,6 +257,104 @@ pub fn random_case(rng: &mut Rng, obs: &mut Obs) {
             "matches": st.matches, "overlapping": st.overlapping}));
     }
     st.flush(obs);
+}
+
+/// `Nevec` (the matcher's pattern and prefix-function storage) against a plain `Vec` that is never
+/// allowed to become empty: every accessor after every mutation.
+fn nevec_check(rng: &mut Rng, obs: &mut Obs) {
+    let first = rng.below(200) as u8;
+    let mut model: Vec<u8> = vec![first];
+    let mut log: Vec<String> = vec![format!("new({first})")];
+    let r = vcore::catch(|| -> Result<u64, String> {
+        let mut real: Nevec<u8> = match rng.below(3) {
+            0 => Nevec::new(first),
+            1 => Nevec::with_capacity(first, rng.usize_below(8)),
+            _ => {
+                let tail: Vec<u8> = (0..rng.usize_below(5)).map(|_| rng.below(200) as u8).collect();
+                model.extend_from_slice(&tail);
+                log.push(format!("new_with_tail(.., {tail:?})"));
+                Nevec::new_with_tail(first, tail)
+            }
+        };
+        let mut ops = 0u64;
+        for _ in 0..rng.range_usize(1, 40) {
+            match rng.below(5) {
+                0 | 1 => {
+                    let x = rng.below(200) as u8;
+                    log.push(format!("push({x})"));
+                    real.push(x);
+                    model.push(x);
+                }
+                2 => {
+                    log.push("pop_from_tail".into());
+                    let got = real.pop_from_tail();
+                    let want = if model.len() > 1 { model.pop() } else { None };
+                    if got != want {
+                        return Err(format!("pop_from_tail returned {got:?}, a never-empty Vec gives {want:?}"));
+                    }
+                }
+                3 => {
+                    let x = rng.below(200) as u8;
+                    log.push(format!("*last_mut() = {x}"));
+                    *real.last_mut() = x;
+                    *model.last_mut().unwrap() = x;
+                }
+                _ => {
+                    let i = rng.usize_below(model.len() + 2);
+                    let x = rng.below(200) as u8;
+                    log.push(format!("get_mut({i}) <- {x}"));
+                    match (real.get_mut(i), model.get_mut(i)) {
+                        (Some(a), Some(b)) => {
+                            *a = x;
+                            *b = x;
+                        }
+                        (None, None) => {}
+                        _ => return Err(format!("get_mut({i}) presence differs")),
+                    }
+                }
+            }
+            ops += 1;
+            if real.len() != model.len() {
+                return Err(format!("len {} vs {}", real.len(), model.len()));
+            }
+            if real.last() != model.last().unwrap() {
+                return Err("last differs".into());
+            }
+            for i in 0..model.len() + 1 {
+                if real.get(i) != model.get(i) {
+                    return Err(format!("get({i}) differs"));
+                }
+            }
+            for (i, want) in model.iter().enumerate() {
+                if real[i] != *want {
+                    return Err(format!("index [{i}] differs"));
+                }
+            }
+            let iterated: Vec<u8> = (&real).into_iter().copied().collect();
+            if iterated != model {
+                return Err(format!("iteration gives {iterated:?}, Vec holds {model:?}"));
+            }
+            let shown = format!("{real}");
+            let want: String = model.iter().map(|x| x.to_string()).collect();
+            if shown != want {
+                return Err(format!("Display gives {shown:?}, Vec gives {want:?}"));
+            }
+        }
+        let want = *model.last().unwrap();
+        let got = real.pop();
+        if got != want {
+            return Err(format!("pop returned {got}, Vec's last element is {want}"));
+        }
+        Ok(ops)
+    });
+    match r {
+        Ok(Ok(ops)) => obs.add("nevec_ops_checked", ops),
+        Ok(Err(what)) => {
+            let sig: String = what.chars().filter(|c| !c.is_ascii_digit()).take(24).collect();
+            obs.violation(format!("nevec/{}", sig.trim()), json!({"operations": log, "difference": what}))
+        }
+        Err(p) => obs.repo_panic(&p, json!({"operations": log})),
+    }
 }
 
 /// The module's doc example (crates/texcraft-stdext/src/algorithms/substringsearch.rs).
